@@ -197,7 +197,7 @@ def harnesses(tier):
     ST.install_common()
     ST.install_sqlite()
     hs = []
-    for nb, ne in ([(1, 2), (2, 1), (3, 1), (1, 101)] if tier == "quick" else [(1, 2), (2, 1), (2, 2), (1, 3), (1, 101), (1, 230)]):
+    for nb, ne in ([(1, 2), (2, 1), (3, 1), (1, 101)] if tier == "quick" else [(1, 2), (2, 1), (3, 1), (2, 2), (1, 3), (1, 101)]):
         hs.append((Harness(PROP, "migrate-%db-%de" % (nb, ne), h_migrate, dict(nb=nb, ne=ne), "first start of the default SqliteStorage beside a legacy store with %d bucket(s) x %d event(s) carrying ids; directory listing and profile chosen by forking" % (nb, ne), split_depth=6), 1800))
     hs.append((Harness(PROP, "migrate-3b-with-empty-buckets", h_migrate, dict(nb=3, ne=(1, 0, 0)), "legacy store with one populated and two empty buckets (metadata only)", split_depth=6), 1800))
     hs.append((Harness(PROP, "migrate-ieee-durations", h_migrate, dict(nb=1, ne=1, ieee=True), "one legacy event copied under IEEE double rounding: every duration 0..30 d (80 range pieces), instants 2020..2038", split_depth=4, fresh_solver=True), 1800))
@@ -208,7 +208,7 @@ def meta(chk, tier):
     chk.functions = C.source_files("aw_datastore/migration.py", "aw_datastore/storages/sqlite.py", "aw_datastore/__init__.py")
     chk.functions.append(dict(functions=["SqliteStorage.__init__ (migration trigger)", "check_for_migration", "detect_db_files", "peewee_v2_to_sqlite_v1", "SqliteStorage.create_bucket / insert_many / replace"]))
     chk.bounds = [
-        "legacy store: <=3 buckets (one with a unicode id, a null name and empty data; one with nested data; two ids that differ only in case) x <=%d events with symbolic instants, durations, tags and pairwise distinct symbolic ids; plus one bucket of 101 (thorough: 230) events with strictly increasing symbolic ids and instants (bulk-insert chunking)" % (2 if tier == "quick" else 3),
+        "legacy store: <=3 buckets (one with a unicode id, a null name and empty data; one with nested data; two ids that differ only in case) x <=%d events with symbolic instants, durations, tags and pairwise distinct symbolic ids; plus one bucket of 101 events (a 230-event bucket took more than 40 minutes and is not part of any tier) with strictly increasing symbolic ids and instants (bulk-insert chunking)" % (2 if tier == "quick" else 3),
         "legacy buckets without any event (metadata and data dict only)",
         "%d directory listings (no file, distractors only, legacy file of the normal / testing / both profiles) x both profiles" % len(LISTINGS),
     ]
